@@ -5,6 +5,8 @@
 //!   vh worker <kind>                                     one scenario on stdin, observations on stdout
 mod bigdec;
 mod eng;
+mod handlers;
+mod gen_sem;
 mod gen_soup;
 mod gen_syntax;
 mod model;
@@ -58,6 +60,7 @@ fn main() {
                 exe,
                 known: load_known(prop.id),
                 strict: false,
+                profile: PROFILE,
                 out_dir: PathBuf::from(arg_after(&args, "--out").unwrap_or_else(|| "/verif/out/run/tmp".into())),
             };
             shard_main(prop, env)
